@@ -136,7 +136,7 @@ pub fn c20(run: &mut Run) -> Stats {
     let thorough = run.thorough();
     let pats: Vec<(&str, &str)> = vec![
         ("a", ""), ("1", ""), ("é", ""), ("😀", "u"), ("\\d", ""), ("\\d+", ""), ("\\d*", ""), ("a*", ""), ("(?:)", ""), ("\\b", ""), ("$", ""), ("^", ""), ("^", "m"), ("(?<=a)", ""), ("(?<=1)a", ""), ("(?<!a)1", ""), ("a|", ""), ("|a", ""), ("a|1", ""), ("[aé]", ""),
-        ("[^a]", ""), (".", ""), (".", "u"), ("..", "u"), ("é*", ""), ("(a)\\1", ""), ("a?1", ""), ("1(?=a)", ""), ("\\B", ""), ("x", ""), ("a+?", ""), ("(?:a|é)*", ""), ("\\W", "u"),
+        ("[^a]", ""), (".", ""), (".", "u"), ("..", "u"), ("é*", ""), ("(a)\\1", ""), ("a?1", ""), ("1(?=a)", ""), ("\\B", ""), ("x", ""), ("a+?", ""), ("(?:a|é)*", ""), ("\\W", "u"), ("x*", ""), ("\\ba", ""), ("(?<!a)a", ""), ("^a", ""), ("a$", ""), ("\\Ba", ""),
     ];
     let alphabet: Vec<u32> = vec!['a' as u32, '1' as u32, 'é' as u32, 0x1F600];
     let hays: Vec<Hay> = enumerate::all_hays(&alphabet, if thorough { 4 } else { 3 });
@@ -191,6 +191,15 @@ pub fn c20(run: &mut Run) -> Stats {
                     let ms: Vec<(usize, usize)> = fwd.iter().filter_map(|s| if let Step::M(a, b) = s { Some((*a, *b)) } else { None }).collect();
                     if ms != expected {
                         st.violation(&known, "C20", &kind("forward Match steps differ from find_iter"), p.len() + text.len(), case("forward Match steps differ from find_iter", &hname, all_json.clone()));
+                    }
+                }
+                // backward Match steps = find_iter in reverse order (the reverse searcher reports the regex's
+                // matches, i.e. the forward match sequence, from the back; rfind / rmatches / rsplit rely on it)
+                if bwd.contains(&Step::D) {
+                    let ms: Vec<(usize, usize)> = bwd.iter().filter_map(|s| if let Step::M(a, b) = s { Some((*a, *b)) } else { None }).collect();
+                    let rev: Vec<(usize, usize)> = expected.iter().rev().copied().collect();
+                    if ms != rev {
+                        st.violation(&known, "C20", &kind("backward Match steps differ from find_iter reversed"), p.len() + text.len(), case("backward Match steps differ from find_iter in reverse order", &hname, all_json.clone()));
                     }
                 }
                 // each direction's stream is unaffected by calls in the other direction
@@ -250,6 +259,29 @@ pub fn c20(run: &mut Run) -> Stats {
                 if sp != exp_split {
                     bad.push(("str::split".into(), format!("{:?}", exp_split), format!("{:?}", sp)));
                 }
+                // reverse forms
+                let exp_rfind = expected.last().map(|m| m.0);
+                if text.rfind(re) != exp_rfind {
+                    bad.push(("str::rfind".into(), format!("{:?}", exp_rfind), format!("{:?}", text.rfind(re))));
+                }
+                let rmi: Vec<(usize, &str)> = text.rmatch_indices(re).collect();
+                let exp_rmi: Vec<(usize, &str)> = exp_mi.iter().rev().copied().collect();
+                if rmi != exp_rmi {
+                    bad.push(("str::rmatch_indices".into(), format!("{:?}", exp_rmi), format!("{:?}", rmi)));
+                }
+                let rsp: Vec<&str> = text.rsplit(re).collect();
+                let exp_rsplit: Vec<&str> = exp_split.iter().rev().copied().collect();
+                if rsp != exp_rsplit {
+                    bad.push(("str::rsplit".into(), format!("{:?}", exp_rsplit), format!("{:?}", rsp)));
+                }
+                let exp_ends = expected.last().map(|m| m.1 == text.len()).unwrap_or(false);
+                if text.ends_with(re) != exp_ends {
+                    bad.push(("str::ends_with".into(), format!("{}", exp_ends), format!("{}", text.ends_with(re))));
+                }
+                let exp_starts = expected.first().map(|m| m.0 == 0).unwrap_or(false);
+                if text.starts_with(re) != exp_starts {
+                    bad.push(("str::starts_with".into(), format!("{}", exp_starts), format!("{}", text.starts_with(re))));
+                }
                 bad
             });
             match r {
@@ -265,7 +297,7 @@ pub fn c20(run: &mut Run) -> Stats {
         })
         .reduce(Stats::default, Stats::merge);
     run.rule = format!(
-        "{} regexes (literal, class, empty-matching, assertions, lookbehind, multibyte) x every haystack over {{a, 1, é, U+1F600}} up to length {} x {} call histories of next()/next_back() (forward only, backward only, every interleaving with at most two direction switches and block lengths 1..3), each direction run to Done plus two further calls; after every history: forward steps adjacent from 0, backward steps adjacent from len, char boundaries, coverage at Done, forward Match steps = find_iter, each direction unaffected by the other; then str::find / contains / matches / match_indices / split against a find_iter model; non-trivial = the regex matches",
+        "{} regexes (literal, class, empty-matching, assertions, lookbehind, multibyte) x every haystack over {{a, 1, é, U+1F600}} up to length {} x {} call histories of next()/next_back() (forward only, backward only, every interleaving with at most two direction switches and block lengths 1..3), each direction run to Done plus two further calls; after every history: forward steps adjacent from 0, backward steps adjacent from len, char boundaries, coverage at Done, forward Match steps = find_iter, backward Match steps = find_iter reversed, each direction unaffected by the other; then str::find / contains / matches / match_indices / split / rfind / rmatch_indices / rsplit / starts_with / ends_with against a find_iter model; non-trivial = the regex matches",
         pats.len(),
         if thorough { 4 } else { 3 },
         hists.len()
